@@ -296,7 +296,8 @@ where
             return Ok(());
         }
         // Clone the existing enabled interrupts
-        let mut int_config0 = self.device.config.int_config.get_config0();
+        let orig_int_config0 = self.device.config.int_config.get_config0();
+        let mut int_config0 = orig_int_config0;
         let int_enabled = match &self.config {
             GenIntConfig::Gen1Int(_) => int_config0.gen1_int(),
             GenIntConfig::Gen2Int(_) => int_config0.gen2_int(),
@@ -316,12 +317,14 @@ where
                 if int_enabled {
                     int_config0 = int_config0.with_gen1_int(false);
                     self.device.interface.write_register(int_config0)?;
+                    self.device.config.int_config.set_config0(int_config0);
                 }
             }
             GenIntConfig::Gen2Int(_) => {
                 if int_enabled {
                     int_config0 = int_config0.with_gen2_int(false);
                     self.device.interface.write_register(int_config0)?;
+                    self.device.config.int_config.set_config0(int_config0);
                 }
             }
         }
@@ -458,8 +461,9 @@ where
             }
         }
         // Re-enable interrupt, if it was disabled
-        if int_config0.bits() != self.device.config.int_config.get_config0().bits() {
-            self.device.interface.write_register(self.device.config.int_config.get_config0())?;
+        if int_config0.bits() != orig_int_config0.bits() {
+            self.device.interface.write_register(orig_int_config0)?;
+            self.device.config.int_config.set_config0(orig_int_config0);
         }
         Ok(())
     }
